@@ -174,6 +174,26 @@ def sepiaSpecQ (r g b : Int) : List Int :=
     let v := if v < 0 then 0 else v
     v.floor
 
+/-! ## dtype handling of the colour conversions (round 4)
+
+`rgb/255.` (true division), `np.dot(matrix, array)` and `x/xn` convert an integer image to `double` first, so a
+conversion of an integer image is the conversion of the converted values; a `dtype=` request is `astype(dtype)` of
+the `float64` result (for `xyz2rgb` since the repair: of the returned sRGB values, not of the linear intermediate):
+C truncation, then the dtype's reduction. -/
+
+def rgb2xyzInt (rgb : List Int) : List Float := rgb2xyz (rgb.map Float.ofInt)
+def rgb2labInt (rgb : List Int) : List Float := rgb2lab (rgb.map Float.ofInt)
+def roundTripInt (rgb : List Int) : List Float := xyz2rgb (rgb2xyzInt rgb)
+def greyInt (rgb : List Int) : Float := dot greyWF (rgb.map Float.ofInt)
+
+/-- `astype(dt)` of a list of doubles for an integer dtype -/
+def castOutInt (dt : DT) (v : List Float) : List Int := v.map fun y => dt.wrap (truncF y)
+
+def intTriples (xs : List Int) : List (List Int) :=
+  match xs with
+  | r :: g :: b :: rest => [r, g, b] :: intTriples rest
+  | _ => []
+
 /-! ## driver -/
 
 def triples (xs : List Float) : List (List Float) :=
@@ -190,6 +210,16 @@ def handle (a : Args) : String :=
     s!"xyz={cat xyz} xyzspec={cat (ts.map rgb2xyzSpec)} lab={cat (ts.map rgb2lab)} " ++
     s!"labspec={cat (ts.map rgb2labSpec)} back={cat (xyz.map xyz2rgb)} " ++
     s!"grey={showFloats (ts.map fun t => dot greyWF t)} sepia={showNats (ts.map sepia).flatten}"
+  | "rgbint" =>
+    let ts := intTriples (a.ints "rgb")
+    let dt := DT.ofName (a.str "out")
+    let xyz := (ts.map rgb2xyzInt).flatten
+    let lab := (ts.map rgb2labInt).flatten
+    let back := (ts.map roundTripInt).flatten
+    let grey := ts.map greyInt
+    s!"xyz={showFloats xyz} lab={showFloats lab} back={showFloats back} grey={showFloats grey} " ++
+    s!"xyzint={showInts (castOutInt dt xyz)} labint={showInts (castOutInt dt lab)} " ++
+    s!"backint={showInts (castOutInt dt back)} greyint={showInts (castOutInt dt grey)}"
   | "xyz2rgb" =>
     let ts := triples (a.floats "xyz")
     s!"rgb={showFloats (ts.map xyz2rgb).flatten} rgbspec={showFloats (ts.map xyz2rgbSpec).flatten}"
